@@ -60,9 +60,39 @@ class H(W.Hooks):
         self.ctx = ctx
         self.case = case
         self.hist_obs = None
+        self.prefix = []        # what an earlier history observer (since unsubscribed) had recorded
+
+    def recorded(self):
+        return self.prefix + list(self.hist_obs.history)
+
+    def reset(self, run):
+        self.prefix = []        # a new episode: only the subscribed recorder's record counts
 
     def start(self, run):
         from job_shop_lib.dispatching import HistoryObserver
+        self.prefix = []
+        if self.case.get("seed", 0) % 7 == 2:
+            # two user observers in front of the history observer; the second one unsubscribes the
+            # first from inside one of its updates - the recorder behind them misses nothing
+            from job_shop_lib.dispatching import DispatcherObserver
+
+            class Plain(DispatcherObserver):
+                _is_singleton = False
+                def update(self, scheduled_operation): pass
+                def reset(self): pass
+
+            class Evictor(DispatcherObserver):
+                _is_singleton = False
+                def __init__(self, dispatcher, victim, at):
+                    super().__init__(dispatcher)
+                    self.victim, self.at, self.n = victim, at, 0
+                def update(self, scheduled_operation):
+                    self.n += 1
+                    if self.n == self.at and self.victim in self.dispatcher.subscribers:
+                        self.dispatcher.unsubscribe(self.victim)
+                def reset(self): pass
+            Evictor(run.d, Plain(run.d), 1 + self.case["seed"] % 3)
+            self.ctx.count("histories_with_an_evicting_observer_in_front_of_the_recorder")
         if self.case.get("seed", 0) % 4 == 0 and len(run.ops) <= 40:
             # every built-in observer attached: observers read the dispatcher's bookkeeping, the
             # bookkeeping must still be the one implied by the schedule
@@ -80,6 +110,22 @@ class H(W.Hooks):
 
     def after(self, run, o, m):
         ctx, d, r = self.ctx, run.d, run.r
+        if self.case.get("seed", 0) % 7 == 4 and not self.case.get("raiser") and not self.prefix \
+                and len(r.history) == 1 + self.case["seed"] % 4 \
+                and self.hist_obs in d.subscribers:
+            # the recorder is unsubscribed and the dispatcher is asked for one again: it hands out
+            # a subscribed recorder, and the two records together are the history
+            from job_shop_lib.dispatching import HistoryObserver
+            d.unsubscribe(self.hist_obs)
+            self.prefix = list(self.hist_obs.history)
+            self.hist_obs = d.create_or_get_observer(HistoryObserver)
+            ctx.count("recorder_unsubscribed_and_obtained_again")
+            if not any(x is self.hist_obs for x in d.subscribers):
+                ctx.violation("c02_history_observer_differs",
+                              {"what": "create_or_get_observer returned a recorder that is not subscribed",
+                               "history": list(r.history)})
+            elif self.hist_obs.history and len(self.hist_obs.history) == len(self.prefix):
+                self.prefix = []    # the same object came back with its record: equally fine
         ctx.count("lockstep_start_checks")
         so = d.schedule.schedule[m][-1] if 0 <= m < len(d.schedule.schedule) and d.schedule.schedule[m] else None
         if so is None or so.operation is not run.op(o) or so.start_time != r.start[o]:
@@ -110,7 +156,7 @@ class H(W.Hooks):
             ctx.violation("c02_schedule_differs_from_reference",
                           {"got": original, "want": r.triples()})
         hist = [(so.operation.operation_id, so.start_time, so.machine_id)
-                for so in self.hist_obs.history]
+                for so in self.recorded()]
         if [(o, m) for o, _, m in hist] != list(r.history) or any(
                 s != r.start[o] for o, s, _ in hist):
             ctx.violation("c02_history_observer_differs", {"got": hist, "want": r.history})
@@ -138,7 +184,7 @@ class H(W.Hooks):
                                "where": "fresh dispatcher on from_matrices(**to_dict())"})
         # (b) same dispatcher after reset (the record is the caller's own copy: whether the
         # observer's list object itself survives a reset is not part of the property)
-        recorded = list(self.hist_obs.history)
+        recorded = self.recorded()
         run.d.reset()
         for so in recorded:
             run.d.dispatch(so.operation, so.machine_id)
